@@ -33,7 +33,7 @@ Theorem binop_agree o a b d1 d2 s t s' rexp :
   elab_binop o a b (TDim d1) (TDim d2) s = Ok (t, s') ->
   rt_binop o d1 d2 rexp = rt_of_ty t /\ rt_binop o d1 d2 rexp <> RIncompatible.
 Proof.
-  intros H1 H2 Ha Ho He H. unfold elab_binop in H.
+  intros H1 H2 Ha Ho He H. unfold elab_binop, elab_binop_core in H.
   destruct o; try congruence.
   1,2,6: apply assert_closed in H; auto; destruct H as [E ->]; simpl; rewrite E; split; [reflexivity|discriminate].
   1,2: rewrite H1, H2 in H; simpl in H; inversion H; subst; simpl; split; [reflexivity|discriminate].
